@@ -1,22 +1,8 @@
 (* Byte-level facts about the FilePersister model: little-endian records, writes, index replay. *)
 From Coq Require Import PeanoNat NArith List Bool Lia.
-From F8 Require Import C26.SMap C26.SMapProofs C26.PersistSpec C26.MemPersist C26.FilePersist.
+From F8 Require Import C26.SMap C26.SMapProofs C26.PersistSpec C26.PersistProofs C26.Spec_C26 C26.MemPersist C26.MemProofs C26.FilePersist.
 Import ListNotations.
 Local Open Scope N_scope.
-
-(* ---- little endian ---- *)
-Lemma le_enc_length : forall n v, length (le_enc n v) = n.
-Proof. induction n; intros; cbn [le_enc length]; auto. Qed.
-
-Lemma le_dec_enc : forall n v, v < 256 ^ N.of_nat n -> le_dec (le_enc n v) = v.
-Proof.
-  induction n as [|n IH]; intros v H.
-  - cbn in *. lia.
-  - cbn [le_enc le_dec]. rewrite IH.
-    + pose proof (N.div_mod v 256). lia.
-    + rewrite Nat2N.inj_succ, N.pow_succ_r' in H.
-      apply N.div_lt_upper_bound; lia.
-Qed.
 
 Definition rec_ok (r : N * prec) : Prop :=
   fst r < 4294967296 /\ fst (snd r) < 18446744073709551616 /\ snd (snd r) < 4294967296.
